@@ -138,6 +138,31 @@ def run(ctx):
         f = s.facts.get(('field', 'self', 'sampling_calculator'))
         return f[0] if f else None          # calculator is None
     decision_table(res, ca, cb, dom3, f3, 'S3 size-based decision', 'no calculator configured', forced_s3, 'ratio')
+    # the size the calculator judges is the size of the object that is stored: len() of the very payload handed to the bucket
+    from ..loader import expand_locals as _xl
+    sv3 = s3.lookup('_save_recording')
+    if sv3 is None:
+        raise AnalysisError('anchor-lost method=S3TapeCassette._save_recording')
+    scalls = [n for n in ast.walk(sv3.node) if isinstance(n, ast.Call) and _self_attr(n.func) == f3.name]
+    puts = [n for n in ast.walk(sv3.node) if isinstance(n, ast.Call) and isinstance(n.func, ast.Attribute) and n.func.attr == 'put_string' and len(n.args) >= 2]
+    if len(scalls) != 1 or not puts:
+        raise AnalysisError('anchor-lost role=S3 sampling call / payload upload in the save routine')
+    size_arg = scalls[0].args[-1] if scalls[0].args else None
+    size_e = size_arg
+    for _ in range(3):      # through explaining variables, but not into the payload's own definition
+        if isinstance(size_e, ast.Name):
+            size_e = _xl(sv3.node, size_e, depth=1)
+    measured = size_e.args[0].id if isinstance(size_e, ast.Call) and isinstance(size_e.func, ast.Name) and size_e.func.id == 'len' and size_e.args and \
+        isinstance(size_e.args[0], ast.Name) else None
+    first_put = sorted(puts, key=lambda n: (n.lineno, n.col_offset))[0]
+    stored = first_put.args[1].id if isinstance(first_put.args[1], ast.Name) else None
+    oksz = measured is not None and measured == stored
+    cb.instance('S3: the calculator is given len(%s), the payload stored is `%s`' % (measured, stored), sv3.qualname, oksz)
+    cb.evaluations += 1
+    if not oksz:
+        res.add(Finding('C17', 'C17.b', 'R-DECISION', sv3.file, sv3.qualname, scalls[0].lineno, norm(scalls[0])[:100],
+                        'the size-based calculator is given `%s`, not the size of the object that is stored (`%s`): recordings fall into the wrong size '
+                        'tier, so which ones are kept does not follow the configured size policy' % (norm(size_e) if size_e is not None else None, stored)))
 
     # ---- generator provenance
     for func, cls, fld in ((smp, roles.cls, roles.random), (f3, s3, None)):
@@ -324,6 +349,18 @@ def run(ctx):
                         'force flag %s at exit' % k, 'forced sampling requested in one run survives into the next',
                         witness=d.path_to(n, s), exit=rm.exit_kind(n)))
     # and the key agrees with class_function
+    # ---- C17.h the decision about a run is taken from that run's own class: the operation decorator keeps nothing between calls
+    from . import common as _cm17
+    chh = res.clause('C17.h', 'R-PROV', 'the operation decorator keeps no state between calls (parameters looked up per call)', floor=1)
+    fac_, deco_, cl_ = roles.closures['operation']
+    kept = [(o_, x) for o_ in (fac_, deco_) for x in _cm17.closure_state_writes(o_.node, cl_.node)] + \
+        [(o_, (x[0], x[1], x[2])) for o_ in (fac_, deco_) for x in _cm17.one_shot_captures(o_.node, cl_.node)]
+    chh.instance('operation decorator closure writes no variable of its factory', cl_.qualname, not kept)
+    chh.evaluations += 1
+    for o_, (n_, nm_, what_) in kept[:1]:
+        res.add(Finding('C17', 'C17.h', 'R-PROV', o_.file, o_.qualname, n_.lineno, '%s: %s' % (nm_, what_),
+                        'the operation decorator keeps `%s` between calls of the decorated function (%s): what was resolved for the first caller\'s '
+                        'class (skipped / rate / ignore-forcing) is applied to every later caller, whatever its class' % (nm_, what_)))
     # ---- C17.g the sampling options are stored as given
     from . import common
     cg = res.clause('C17.g', 'R-PROV', 'sampling rate / enforced-sampling / skip options are stored as the caller gave them', floor=3)
